@@ -334,6 +334,10 @@ def correspondence(ctx):
         ctx.sample({'fmt': p.img.fmt, 'tag': p.img.tag, 'length': len(p.img.data), 'chunking': p.ctag,
                     'chunks': len(p.sizes), 'implementation': impl.split('\t')[-1]}, 5)
     out += G.run_pairs(ctx, pairs, on)
+    # a few sparse streams (> 4 GiB; zero gaps skipped by the model through the inspx request)
+    sparse = G.far_images(rng, True)[:3 if ctx.quick else 4] + G.sparse_generic(rng, rng.sample(G.FORMATS, 4) if ctx.quick else None)
+    out += G.sparse_pairs(ctx, [(sp, plan) for sp in sparse for plan in G.far_plans(sp)
+                                if not (ctx.quick and plan.startswith('extents1') and sp.fmt == 'vhdx')])
     ctx.notes.append('model cost units spent: %d' % spent[0])
     ctx.exhaustive = True
     return out
@@ -486,6 +490,29 @@ def differing_inspectors(a, b, expected=None):
     return sorted({k.rstrip('!') for k in names if pa.get(k) != pb.get(k)})
 
 
+def sparse_oracle(ctx, rng, fails, full):
+    """streams beyond 4 GiB (sparse, the zero filler is a shared chunk object): same verdict under every chunk
+    plan, retained regions equal to the stream's bytes at their offsets"""
+    for sp in G.far_images(rng, ctx.quick, full) + G.sparse_generic(rng):
+        ref = None
+        for tag in G.far_plans(sp) + ['grid%d' % (16 << 20)]:
+            cuts = sp.plan(tag)
+            ctx.evaluations += 1
+            ctx.count('search/sparse/' + tag.split('@')[0])
+            v, i = G.sparse_run(sp, cuts)
+            bad = [n for n, r in i._capture_regions.items() if bytes(r.data) != sp.piece(r.offset, r.offset + len(r.data))]
+            c = G.core(v)
+            if ref is None:
+                ref, ref_tag = c, tag
+            if c != ref or bad:
+                case = dict(sp.case(tag), plan_a=ref_tag)
+                fails.append(Failure(case, {'kind': 'retained-not-stream-slice' if bad else 'verdict-depends-on-chunking',
+                                            'what': '%s sparse stream of %d bytes: plan "%s": %s | plan "%s": %s%s'
+                                                    % (sp.fmt, sp.total, ref_tag, ref, tag, c, ' regions %s are not stream slices' % bad if bad else ''),
+                                            'classes': []}))
+                break
+
+
 def polyglot_wrapper_search(ctx, rng, fails, full, enough):
     """InspectWrapper with expected_format (and allowed_formats subsets) over pairwise polyglots: the verdict
     after the whole stream must not depend on the reads"""
@@ -579,6 +606,8 @@ def search(ctx, seeds, full=False):
             wrapper_oracle(ctx, img, fam, fails, allowed, expected)
         if not enough():
             polyglot_wrapper_search(ctx, rng, fails, full, enough)
+        if not enough():
+            sparse_oracle(ctx, rng, fails, full)
     ctx._c01_failures = fails
     ctx.count('search/failures-in-known-classes', len([f for f in fails if classes_flat(f)]))
     return fails
@@ -597,7 +626,7 @@ def classes_flat(f):
 def candidate_class(failure, listed_ids):
     """the listed class the failing input lies in (by the byte predicates), or None"""
     case, det = failure.case, failure.detail
-    if case.get('kind') == 'region':
+    if case.get('kind') in ('region', 'sparse'):
         return None
     data = G.decode_content(case['content'])
     kind = det.get('kind')
@@ -704,6 +733,20 @@ def replay(ctx, payload):
         why = engine_oracle(off, ln, ml, is_end, data, r, len(case['sizes']))
         print('property oracle on the implementation:', why)
         return 1 if why else 0
+    if case.get('kind') == 'sparse':
+        sp, _ = G.sparse_of_case(case)
+        cores = []
+        for plan in [p for p in (case.get('plan_a'), case['plan']) if p]:
+            cuts = sp.plan(plan)
+            impl = G.sparse_render(sp, cuts)
+            model = ctx.driver.ask(G.inspx_line(sp, cuts, False))
+            print('%s, sparse stream of %d bytes, extents at %s, chunk plan "%s" (%d chunks)' % (sp.fmt, sp.total, [o for o, _ in sp.extents], plan, len(cuts) + 1))
+            print('  implementation:', impl[-1200:])
+            print('  model         :', model[-1200:])
+            cores.append((G.core(impl.split('\t')[-1]), impl == model or model == 'unmodelled-zero-run'))
+        differs = len({c for c, _ in cores}) > 1
+        print('property oracle on the implementation: verdict %s across the plans' % ('DIFFERS' if differs else 'equal'))
+        return 1 if (differs or not all(ok for _, ok in cores)) else 0
     data = G.decode_content(case['content'])
     kind = case['kind']
     if 'sizes_a' not in case:       # a correspondence disagreement
